@@ -377,6 +377,7 @@ func c06Exec(cfg c06Cfg, path []int, closing bool) (menu int, v *fw.Violation, x
 
 func runC06(c *fw.Ctx) {
 	runSpxFamily(c, "C06")
+	defer runC06Hist(c) // last: if the time budget runs out it is the long histories that are cut short
 	thorough := c.Tier == "thorough"
 	cfgs := []c06Cfg{
 		{0, []int{3}, []bool{false}, nil}, {1, []int{6}, []bool{true}, nil}, {5, []int{6, 3}, []bool{false, false}, nil}, {1, []int{3, 1}, []bool{true, false}, nil},
@@ -422,6 +423,13 @@ func runC06(c *fw.Ctx) {
 }
 
 func replayC06(raw json.RawMessage) (string, bool) {
+	var fam struct {
+		Family string `json:"family"`
+	}
+	json.Unmarshal(raw, &fam)
+	if fam.Family == "c06hist" {
+		return replayC06Hist(raw)
+	}
 	var r struct {
 		Case c06Case `json:"case"`
 	}
